@@ -37,6 +37,9 @@ CLAIMED = {
  "C14": dict(technique="property-based testing: node/edge census of prov_to_graph and content of graph_to_prov against a reference computed from abstract content (reference unification)",
              text="Bundle-free recipes over a small identifier pool produce declared/undeclared endpoints, parallel relations, self-loops, merged identifiers and undrawable relations; the expected node multiset (elements of the reference-unified content + one inferred node per undeclared endpoint of an allowed kind, outside any document) and edge multiset (one per drawable relation, first -> second argument, carrying the relation) are compared with the MultiDiGraph, and graph_to_prov with elements + drawable relations.",
              note="Trusted: reference unification (C08), own argument-position -> kind table. Influence relations with undeclared endpoints and conflicting unifications are discarded with counters.", ref="4 C14"),
+ "C06": dict(technique="property-based differential testing against an independent PROV-N parser written from the W3C grammar (own expression/argument tables), strict URI-level multiset oracle",
+             text="Generated documents (all kinds, masks, bundles with own declarations, every value kind, hostile strings) plus an exhaustively enumerated core are printed with get_provn(); the text must parse under an independent recursive-descent parser of the PROV-N grammar and the parsed content - identifiers, formal arguments by position, '-' markers, typed/language-tagged literals, names resolved through the printed declarations - must equal the document's strict canonical content.",
+             note="Trusted: pbt/readers/provn.py (about 400 lines, shares nothing with prov) as reading of the Recommendation; bundle identifiers whose scope reading is ambiguous are not judged (counted).", ref="4 C06"),
 }
 PENDING_REASON = "check not built yet in this round (design in DESIGN.md section 4); not claimed until the check exists and is quiet on the unchanged tree"
 checks = []
